@@ -255,6 +255,8 @@ impl Expression for ExpressionIndex {
             (Err(err), _) => Err(err),
             (_, Err(err)) => Err(err),
             (Ok(left_value), Ok(index_value)) => {
+                // Take a copy of the index first: if it is the indexed value itself, locking both would block forever.
+                let index_value = create_data_arc(index_value.lock().unwrap().clone());
                 let mut data_ref = left_value.lock().unwrap();
                 let data = data_ref.deref_mut();
                 match data {
